@@ -64,6 +64,24 @@ def content_type_rules(ctx, prog, ser, pk, spec, ox, rid):
     if len(loops) != 1:
         ctx.error(key, "loop over self._parts not recognised")
         loops = []
+    # the two tables by role: the function returns (defaults, overrides)
+    rets_ = [n.value for n in walk_own(dx) if isinstance(n, ast.Return) and n.value is not None]
+    DN = ON = None
+    if len(rets_) == 1 and isinstance(rets_[0], ast.Tuple) and len(rets_[0].elts) == 2 and all(isinstance(e, ast.Name) for e in rets_[0].elts):
+        DN, ON = rets_[0].elts[0].id, rets_[0].elts[1].id
+    else:
+        ctx.error(key, "the returned (defaults, overrides) pair is not recognised")
+        loops = []
+    ROLE = {DN: "defaults", ON: "overrides"}
+
+    def role_src(src):
+        """source text with the two table names written by role"""
+        import re as _re
+        for nm_, rl_ in ROLE.items():
+            if nm_:
+                src = _re.sub(r"\b%s\b" % _re.escape(nm_), rl_, src)
+        return src
+
     for lp in loops:
         tgt = lp.target.id
         seeds_src = {}
@@ -74,9 +92,14 @@ def content_type_rules(ctx, prog, ser, pk, spec, ox, rid):
             stores = []
             for st in pth.stmts():
                 for n in ast.walk(st):
-                    if isinstance(n, ast.Assign) and isinstance(n.targets[0], ast.Subscript) and dotted(n.targets[0].value) in ("defaults", "overrides"):
-                        stores.append((dotted(n.targets[0].value), P_.norm(n.targets[0].slice, al), P_.norm(n.value, al), n.lineno))
-            rows.append((P_.facts(pth, None, al), stores, pth))
+                    if isinstance(n, ast.Assign) and isinstance(n.targets[0], ast.Subscript) and dotted(n.targets[0].value) in ROLE:
+                        stores.append((ROLE[dotted(n.targets[0].value)], P_.norm(n.targets[0].slice, al), P_.norm(n.value, al), n.lineno))
+
+            def by_role(a_):
+                if a_[0] == "or":
+                    return ("or", tuple(tuple(by_role(x) for x in alt) for alt in a_[1]))
+                return tuple(role_src(x) if isinstance(x, str) else x for x in a_)
+            rows.append(([by_role(a_) for a_ in P_.facts(pth, None, al)], stores, pth))
         probs_total, probs_own, probs_table, probs_conf = [], [], [], []
         n_def = 0
         for fs, stores, pth in rows:
@@ -152,11 +175,22 @@ def content_type_rules(ctx, prog, ser, pk, spec, ox, rid):
     # serialisation of the two dicts: every item is emitted
     xmlf = cti.methods.get("_xml")
     emitted = set()
+    # which local holds which table: `d, o = self._defaults_and_overrides` (or indexed reads of it)
+    xval = P_.value_aliases(xmlf.node) if xmlf else {}
+    xrole = {}
+    for nm_, v_ in xval.items():
+        srcv = P_.full(v_, xval)
+        if srcv == "self._defaults_and_overrides[0]":
+            xrole[nm_ + ".items"] = "add_default"
+        elif srcv == "self._defaults_and_overrides[1]":
+            xrole[nm_ + ".items"] = "add_override"
+    xrole["self._defaults_and_overrides[0].items"] = "add_default"
+    xrole["self._defaults_and_overrides[1].items"] = "add_override"
     for n in walk_own(xmlf.node) if xmlf else []:
         if isinstance(n, ast.For) and isinstance(n.iter, ast.Call) and dotted(n.iter.func) == "sorted" and n.iter.args:
             it = n.iter.args[0]
-            if isinstance(it, ast.Call) and dotted(it.func) in ("defaults.items", "overrides.items"):
-                callee = {"defaults.items": "add_default", "overrides.items": "add_override"}[dotted(it.func)]
+            if isinstance(it, ast.Call) and ast.unparse(it.func) in xrole:
+                callee = xrole[ast.unparse(it.func)]
                 names = [e.id for e in n.target.elts] if isinstance(n.target, ast.Tuple) else []
                 for st in n.body:  # unconditional: a direct statement of the loop body
                     if isinstance(st, ast.Expr) and isinstance(st.value, ast.Call) and (dotted(st.value.func) or "").split(".")[-1] == callee \
@@ -231,10 +265,14 @@ def content_type_rules(ctx, prog, ser, pk, spec, ox, rid):
                 built[n.targets[0].id] = (dotted(k.func.value) if lowered else dotted(k), dotted(v), dotted(ge.generators[0].iter), lowered)
     exp = {"overrides": ("o.partName", "o.contentType", "types_elm.override_lst", True),
            "defaults": ("d.extension", "d.contentType", "types_elm.default_lst", True)}
+    # the locals by role: the constructor is called cls(<overrides>, <defaults>)
+    ctor_ = [n.value for n in walk_own(fx.node) if isinstance(n, ast.Return) and isinstance(n.value, ast.Call) and len(n.value.args) == 2
+             and all(isinstance(a, ast.Name) for a in n.value.args)]
+    rn_ = {ctor_[0].args[0].id: "overrides", ctor_[0].args[1].id: "defaults"} if len(ctor_) == 1 else {}
+    built = {rn_.get(k, k): v for k, v in built.items()}
     norm = {k: (v[0].split(".")[-1], v[1].split(".")[-1], v[2].split(".")[-1], v[3]) for k, v in built.items()}
     expn = {k: (v[0].split(".")[-1], v[1].split(".")[-1], v[2].split(".")[-1], v[3]) for k, v in exp.items()}
-    ret_ok = any(isinstance(n, ast.Return) and isinstance(n.value, ast.Call) and [dotted(a) for a in n.value.args] == ["overrides", "defaults"]
-                 for n in walk_own(fx.node))
+    ret_ok = len(ctor_) == 1 and dotted(ctor_[0].func) in ("cls", "_ContentTypeMap")
     init = ctm.methods.get("__init__")
     init_ok = init is not None and [a.arg for a in init.node.args.args][1:3] == ["overrides", "defaults"] and \
         stored_from_param(init, "_overrides") == "overrides" and stored_from_param(init, "_defaults") == "defaults"
